@@ -187,6 +187,105 @@ theorem nodeAt_nested (lang : Lang) : ∀ (path : List Nat) (n d : NodeRef), Siz
       have ih := nodeAt_nested lang rest rc.node d hn.2.2.2 h
       exact ⟨by omega, by omega, ih.2.2⟩
 
+theorem summarizedL_kids (lang : Lang) (t : Tree) (h : Summarized lang t) : SummarizedL lang t.kids := by
+  obtain ⟨d, k⟩ := t
+  unfold Summarized at h
+  exact h.2.2
+
+theorem shapeOKL_kids (ps : Option Nat) (t : Tree) (h : shapeOK ps t = true) : shapeOKL (some t.data.symbol) t.kids = true := by
+  obtain ⟨d, k⟩ := t
+  unfold shapeOK at h
+  simp only [Bool.and_eq_true] at h
+  exact h.2
+
+theorem go_length (lang : Lang) (n : NodeRef) (pid nk : Nat) : ∀ (kids : List Tree) (pos : Length) (si k : Nat),
+    (rawChildren.go lang n pid nk kids pos si k).length = kids.length
+  | [], _, _, _ => by simp [rawChildren.go]
+  | c :: rest, pos, si, k => by rw [go_getElem_zero]; simp [go_length lang n pid nk rest]
+
+theorem rawChildren_length (lang : Lang) (n : NodeRef) : (rawChildren lang n).length = n.t.kids.length := by
+  simp only [rawChildren]; exact go_length lang n _ _ _ _ _ _
+
+theorem nodeAt_cons (lang : Lang) (n d : NodeRef) (k : Nat) (rest : List Nat) (h : nodeAt lang n (k :: rest) = some d) :
+    ∃ rc, (rawChildren lang n)[k]? = some rc ∧ nodeAt lang rc.node rest = some d := by
+  simp only [nodeAt, rawChildAt] at h
+  cases hk : (rawChildren lang n)[k]? with
+  | none => simp [hk] at h
+  | some rc => exact ⟨rc, rfl, by simpa [hk] using h⟩
+
+/-- Structural index and alias of the iterator's elements. -/
+theorem go_si (lang : Lang) (n : NodeRef) (pid nk : Nat) : ∀ (kids : List Tree) (pos : Length) (si k j : Nat) (r : RawChild),
+    (rawChildren.go lang n pid nk kids pos si k)[j]? = some r →
+    r.si = siAfter (kids.take j) si ∧ r.node.alias = (if r.node.t.data.extra then 0 else lang.aliasAt pid r.si)
+  | [], _, _, _, _, _, h => by simp [rawChildren.go] at h
+  | c :: rest, pos, si, k, j, r, h => by
+    rw [go_getElem_zero] at h
+    cases j with
+    | zero =>
+      simp only [List.getElem?_cons_zero, Option.some.injEq] at h
+      subst h
+      simp [siAfter]
+    | succ j' =>
+      simp only [List.getElem?_cons_succ] at h
+      have := go_si lang n pid nk rest _ _ _ j' r h
+      simpa [siAfter] using this
+
+/-- A node with a relevant node strictly below it (along raw child indices) has a visible child. -/
+theorem enum_nonempty_of_path (lang : Lang) (d : NodeRef) (hrel : d.relevant lang true = true) :
+    ∀ (rest : List Nat) (c : NodeRef), rest ≠ [] → nodeAt lang c rest = some d → enumChildren lang c.t ≠ []
+  | [], _, h, _ => absurd rfl h
+  | k :: rest', c, _, hat => by
+    obtain ⟨rc, hk, hat'⟩ := nodeAt_cons lang c d k rest' hat
+    have hk2 := hk
+    simp only [rawChildren] at hk2
+    have he := go_elem lang _ _ _ _ _ _ _ k rc hk2
+    have hsi := go_si lang _ _ _ _ _ _ _ k rc hk2
+    have hsplit : c.t.kids = c.t.kids.take k ++ rc.node.t :: c.t.kids.drop (k + 1) := by
+      rw [← drop_eq_cons _ k _ he.2.2, List.take_append_drop]
+    have henum : enumChildren lang c.t = enumKids lang c.t.data.productionId c.t.kids 0 := by
+      obtain ⟨t, al, id, st⟩ := c
+      obtain ⟨dd, kids⟩ := t
+      simp [enumChildren, data_mk, kids_mk]
+    rw [henum, hsplit, enumKids_append]
+    intro h0
+    have h1 := (List.append_eq_nil_iff.mp h0).2
+    unfold enumKids at h1
+    have h2 := (List.append_eq_nil_iff.mp h1).1
+    rw [← hsi.1] at h2
+    have halias : (if rc.node.t.data.extra = true then 0 else lang.aliasAt c.t.data.productionId rc.si) = rc.node.alias := hsi.2.symm
+    simp only [halias] at h2
+    cases rest' with
+    | nil =>
+      simp only [nodeAt, Option.some.injEq] at hat'
+      subst hat'
+      simp only [NodeRef.relevant, isRelevant, if_true] at hrel
+      simp [hrel] at h2
+    | cons k'' r'' =>
+      by_cases hv : (rc.node.t.data.visible || rc.node.alias != 0) = true
+      · simp [hv] at h2
+      · simp only [hv, if_false, Bool.false_eq_true] at h2
+        exact enum_nonempty_of_path lang d hrel (k'' :: r'') rc.node (by simp) hat' h2
+
+/-- … hence `ts_node_child_count` of every proper ancestor of a relevant node is positive (what the
+loop of `ts_node_child_with_descendant` tests before descending). -/
+theorem ancestor_child_count_pos (lang : Lang) (d c : NodeRef) (rest : List Nat) (ps : Option Nat)
+    (hrel : d.relevant lang true = true) (hr : rest ≠ []) (hat : nodeAt lang c rest = some d)
+    (hs : Summarized lang c.t) (hsh : shapeOK ps c.t = true) : c.childCount > 0 := by
+  have hne := enum_nonempty_of_path lang d hrel rest c hr hat
+  have hcnt := (summarize_counts lang c.t ps hs hsh).1
+  have hk : c.t.kids.length > 0 := by
+    cases rest with
+    | nil => exact absurd rfl hr
+    | cons k r =>
+      obtain ⟨rc, hk, _⟩ := nodeAt_cons lang c d k r hat
+      have := rawChildren_length lang c
+      have := lt_of_getElem?_some _ k rc hk
+      omega
+  simp only [NodeRef.childCount, hk, if_true]
+  cases hl : enumChildren lang c.t with
+  | nil => exact absurd hl hne
+  | cons a b => rw [hl] at hcnt; simp at hcnt; omega
+
 /-- Scanning the children of a node for a NON-EMPTY descendant that lies under child `k`:
 everything before `k` is passed over. -/
 theorem inner_skip (lang : Lang) (fuel dId dStart dEnd : Nat) (hne : dStart < dEnd) :
@@ -222,12 +321,14 @@ theorem raw_ordered (lang : Lang) (n : NodeRef) (i j : Nat) (ri rj : RawChild) (
 by a path of raw child indices, `ts_node_child_with_descendant(self, d)` returns the first
 relevant node on that path below `self` (or `d` itself at the end of the path). -/
 theorem child_with_descendant_spec_partial (lang : Lang) :
-    ∀ (path : List Nat) (fuel : Nat) (self d : NodeRef), path ≠ [] → path.length ≤ fuel → Sized self.t →
-    nodeAt lang self path = some d → d.startByte < d.endByte → pathOK lang d.id self path = true →
+    ∀ (path : List Nat) (fuel : Nat) (self d : NodeRef) (ps : Option Nat), path ≠ [] → path.length ≤ fuel →
+    Summarized lang self.t → shapeOK ps self.t = true → nodeAt lang self path = some d → d.relevant lang true = true →
+    d.startByte < d.endByte → pathOK lang d.id self path = true →
     childWithDescendant lang fuel self d.id d.startByte d.endByte = firstRelevantOnPath lang self path
-  | [], _, _, _, h, _, _, _, _, _ => absurd rfl h
-  | k :: rest, 0, _, _, _, hf, _, _, _, _ => by simp at hf
-  | k :: rest, f + 1, self, d, _, hf, hs, hat, hne, hok => by
+  | [], _, _, _, _, h, _, _, _, _, _, _, _ => absurd rfl h
+  | k :: rest, 0, _, _, _, _, hf, _, _, _, _, _, _ => by simp at hf
+  | k :: rest, f + 1, self, d, ps, _, hf, hsum, hsh, hat, hdrel, hne, hok => by
+    have hs := sized_of_summarized lang self.t hsum
     simp only [nodeAt, rawChildAt] at hat
     simp only [pathOK, rawChildAt, Bool.and_eq_true] at hok
     simp only [firstRelevantOnPath, rawChildAt]
@@ -254,16 +355,23 @@ theorem child_with_descendant_spec_partial (lang : Lang) :
         simp
       | cons k' rest' =>
         simp only [List.isEmpty_cons, Bool.false_or, Bool.and_eq_true, bne_iff_ne, ne_eq] at hok ⊢
-        have h2 : (rc.node.id == d.id) = false := by simpa using hok.2.1.1
+        have h2 : (rc.node.id == d.id) = false := by simpa using hok.2.1
         have h3 : decide (rc.posAfter.bytes < d.endByte) = false := by simp; omega
-        have h4 : (rc.node.childCount == 0) = false := by simpa using hok.2.1.2
+        have hk2 := hk
+        simp only [rawChildren] at hk2
+        have hcmem : rc.node.t ∈ self.t.kids := List.mem_of_getElem? (go_elem lang _ _ _ _ _ _ _ k rc hk2).2.2
+        have hsc := summarized_of_mem lang _ rc.node.t (summarizedL_kids lang self.t hsum) hcmem
+        have hshc := shapeOK_of_mem _ _ rc.node.t (shapeOKL_kids ps self.t hsh) hcmem
+        have h4 : (rc.node.childCount == 0) = false := by
+          have := ancestor_child_count_pos lang d rc.node (k' :: rest') _ hdrel (by simp) hat hsc hshc
+          simp; omega
         simp only [h2, h3, h4, Bool.or_false, Bool.false_eq_true, if_false]
         cases hrel : rc.node.relevant lang true with
         | true => simp
         | false =>
           simp only [Bool.false_eq_true, if_false]
-          exact child_with_descendant_spec_partial lang (k' :: rest') f rc.node d (by simp)
-            (by simp at hf ⊢; omega) hn.2.2.2 hat hne hok.2.2
+          exact child_with_descendant_spec_partial lang (k' :: rest') f rc.node d _ (by simp)
+            (by simp at hf ⊢; omega) hsc hshc hat hdrel hne hok.2.2
 
 
 /-! ### `ts_node_parent` -/
@@ -302,12 +410,13 @@ theorem parentOnPath_split (lang : Lang) : ∀ (p : List Nat) (n best : NodeRef)
         simp only [Bool.false_eq_true, if_false]
         exact parentOnPath_split lang (k' :: rest) c best
 
-theorem relSplit_inv (lang : Lang) (d : NodeRef) : ∀ (p : List Nat) (n c : NodeRef) (rest : List Nat),
-    relSplit lang n p = some (c, rest) → nodeAt lang n p = some d → pathOK lang d.id n p = true → Sized n.t →
-    nodeAt lang c rest = some d ∧ (rest ≠ [] → c.id ≠ d.id ∧ pathOK lang d.id c rest = true) ∧ Sized c.t ∧
-      rest.length < p.length
-  | [], _, _, _, h, _, _, _ => by simp [relSplit] at h
-  | k :: tl, n, c, rest, h, hat, hok, hs => by
+theorem relSplit_inv (lang : Lang) (d : NodeRef) : ∀ (p : List Nat) (n c : NodeRef) (rest : List Nat) (ps : Option Nat),
+    relSplit lang n p = some (c, rest) → nodeAt lang n p = some d → pathOK lang d.id n p = true →
+    Summarized lang n.t → shapeOK ps n.t = true →
+    nodeAt lang c rest = some d ∧ (rest ≠ [] → c.id ≠ d.id ∧ pathOK lang d.id c rest = true) ∧
+      (Summarized lang c.t ∧ ∃ ps', shapeOK ps' c.t = true) ∧ rest.length < p.length
+  | [], _, _, _, _, h, _, _, _, _ => by simp [relSplit] at h
+  | k :: tl, n, c, rest, ps, h, hat, hok, hs, hsh => by
     simp only [relSplit] at h
     simp only [nodeAt] at hat
     simp only [pathOK, Bool.and_eq_true] at hok
@@ -315,50 +424,56 @@ theorem relSplit_inv (lang : Lang) (d : NodeRef) : ∀ (p : List Nat) (n c : Nod
     | none => simp [hk] at h
     | some c0 =>
       simp only [hk] at h hat hok
-      have hsz : Sized c0.t := by
+      have hsz : Summarized lang c0.t ∧ shapeOK (some n.t.data.symbol) c0.t = true := by
         simp only [rawChildAt] at hk
         cases hr : (rawChildren lang n)[k]? with
         | none => simp [hr] at hk
         | some rc =>
           simp only [hr, Option.map_some, Option.some.injEq] at hk
           subst hk
-          exact (raw_child_nested lang n hs k rc hr).2.2.2
+          have hr2 := hr
+          simp only [rawChildren] at hr2
+          have hmem : rc.node.t ∈ n.t.kids := List.mem_of_getElem? (go_elem lang _ _ _ _ _ _ _ k rc hr2).2.2
+          exact ⟨summarized_of_mem lang _ _ (summarizedL_kids lang n.t hs) hmem,
+            shapeOK_of_mem _ _ _ (shapeOKL_kids ps n.t hsh) hmem⟩
       by_cases hc : (tl.isEmpty || c0.relevant lang true) = true
       · simp only [hc, if_true, Option.some.injEq, Prod.mk.injEq] at h
         obtain ⟨h1, h2⟩ := h
         subst h1; subst h2
-        refine ⟨hat, ?_, hsz, by simp⟩
+        refine ⟨hat, ?_, ⟨hsz.1, _, hsz.2⟩, by simp⟩
         intro hne
         have : tl.isEmpty = false := by cases tl <;> simp_all
         simp only [this, Bool.false_or, Bool.and_eq_true, bne_iff_ne, ne_eq] at hok
-        exact ⟨hok.2.1.1, hok.2.2⟩
+        exact ⟨hok.2.1, hok.2.2⟩
       · simp only [hc, if_false, Bool.false_eq_true] at h
         have : tl.isEmpty = false := by cases tl <;> simp_all
         simp only [this, Bool.false_or, Bool.and_eq_true, bne_iff_ne, ne_eq] at hok
-        have ih := relSplit_inv lang d tl c0 c rest h hat hok.2.2 hsz
+        have ih := relSplit_inv lang d tl c0 c rest _ h hat hok.2.2 hsz.1 hsz.2
         exact ⟨ih.1, ih.2.1, ih.2.2.1, by simp; omega⟩
 
-/-- **parent_spec_partial.**  For a NON-EMPTY node `d` at `path` below `root` (`path ≠ []`),
-`ts_node_parent(d)` is the nearest relevant proper ancestor on the path (`root` if none). -/
-theorem parent_spec_partial (lang : Lang) (fuel : Nat) (root d : NodeRef) (path : List Nat)
-    (hp : path ≠ []) (hf : path.length ≤ fuel) (hs : Sized root.t) (hat : nodeAt lang root path = some d)
+/-- **parent_spec_partial.**  For a relevant NON-EMPTY node `d` at `path` below `root` (`path ≠ []`)
+in a summarized parser-shaped tree, `ts_node_parent(d)` is the nearest relevant proper ancestor on the
+path (`root` if none). -/
+theorem parent_spec_partial (lang : Lang) (fuel : Nat) (root d : NodeRef) (path : List Nat) (ps : Option Nat)
+    (hp : path ≠ []) (hf : path.length ≤ fuel) (hs : Summarized lang root.t) (hsh : shapeOK ps root.t = true)
+    (hat : nodeAt lang root path = some d) (hrel : d.relevant lang true = true)
     (hne : d.startByte < d.endByte) (hroot : root.id ≠ d.id) (hok : pathOK lang d.id root path = true) :
     nodeParent lang fuel root d = some (parentOnPath lang root root path) := by
-  have key : ∀ (f : Nat) (p : List Nat) (n : NodeRef), p ≠ [] → p.length ≤ f → p.length ≤ fuel → Sized n.t →
-      nodeAt lang n p = some d → pathOK lang d.id n p = true →
+  have key : ∀ (f : Nat) (p : List Nat) (n : NodeRef) (ps : Option Nat), p ≠ [] → p.length ≤ f → p.length ≤ fuel →
+      Summarized lang n.t → shapeOK ps n.t = true → nodeAt lang n p = some d → pathOK lang d.id n p = true →
       nodeParent.go lang fuel d f n = parentOnPath lang n n p := by
     intro f
     induction f with
-    | zero => intro p n hp hf; cases p <;> simp_all
+    | zero => intro p n _ hp hf; cases p <;> simp_all
     | succ f ih =>
-      intro p n hp hf hfu hs hat hok
-      rw [nodeParent.go, child_with_descendant_spec_partial lang p fuel n d hp hfu hs hat hne hok,
+      intro p n ps hp hf hfu hs hsh hat hok
+      rw [nodeParent.go, child_with_descendant_spec_partial lang p fuel n d ps hp hfu hs hsh hat hrel hne hok,
         firstRelevant_eq_split, parentOnPath_split]
       cases hsp : relSplit lang n p with
       | none => rfl
       | some cr =>
         obtain ⟨c, rest⟩ := cr
-        have hi := relSplit_inv lang d p n c rest hsp hat hok hs
+        have hi := relSplit_inv lang d p n c rest ps hsp hat hok hs hsh
         simp only [Option.map_some]
         cases rest with
         | nil =>
@@ -369,12 +484,13 @@ theorem parent_spec_partial (lang : Lang) (fuel : Nat) (root d : NodeRef) (path 
           have h2 := hi.2.1 (by simp)
           have : (c.id == d.id) = false := by simpa using h2.1
           simp only [this, Bool.false_eq_true, if_false, List.isEmpty_cons]
-          exact ih (k' :: rest') c (by simp) (by have := hi.2.2.2; omega) (by have := hi.2.2.2; omega)
-            hi.2.2.1 hi.1 h2.2
+          obtain ⟨hsc, ps', hshc⟩ := hi.2.2.1
+          exact ih (k' :: rest') c ps' (by simp) (by have := hi.2.2.2; omega) (by have := hi.2.2.2; omega)
+            hsc hshc hi.1 h2.2
   unfold nodeParent
   have : (root.id == d.id) = false := by simpa using hroot
   simp only [this, Bool.false_eq_true, if_false]
-  rw [key fuel path root hp hf hf hs hat hok]
+  rw [key fuel path root ps hp hf hf hs hsh hat hok]
 
 /-! ## Non-vacuity -/
 
@@ -390,6 +506,19 @@ theorem pvRoot_sized : Sized pvRoot.t := by
   decide
 
 
+theorem leaf_summarized (lang : Lang) (d : NodeData) (h : LeafOK d) : Summarized lang (.mk d []) := by
+  unfold Summarized SummarizedL; exact ⟨fun _ => h, fun h => absurd rfl h, trivial⟩
+theorem node_summarized (lang : Lang) (d : NodeData) (c : Tree) (rest : List Tree) (h : NodeOK lang d (c :: rest))
+    (hk : SummarizedL lang (c :: rest)) : Summarized lang (.mk d (c :: rest)) := by
+  unfold Summarized; exact ⟨fun h => by simp at h, fun _ => h, hk⟩
+theorem cwLeaf_summarized : Summarized C02.demoLang cwLeaf := leaf_summarized _ _ (by unfold LeafOK; decide)
+theorem pvRoot_summarized : Summarized C02.demoLang pvRoot.t := by
+  have hl := cwLeaf_summarized
+  have hv : Summarized C02.demoLang pvV := node_summarized _ _ _ _ (by unfold NodeOK; decide) (by unfold SummarizedL SummarizedL; exact ⟨hl, trivial⟩)
+  have hh : Summarized C02.demoLang pvH := node_summarized _ _ _ _ (by unfold NodeOK; decide) (by unfold SummarizedL SummarizedL SummarizedL; exact ⟨hv, hl, trivial⟩)
+  exact node_summarized _ _ _ _ (by unfold NodeOK; decide) (by unfold SummarizedL SummarizedL SummarizedL SummarizedL; exact ⟨hl, hh, hl, trivial⟩)
+theorem pvRoot_shape : shapeOK none pvRoot.t = true := by decide
+
 /-- the leaf `b` below the visible rule `v` below the hidden `h` -/
 def pvB : NodeRef := { t := cwLeaf, alias := 0, id := 2992, start := ⟨1, ⟨0, 1⟩⟩ }
 /-- the leaf `c` directly below the hidden `h` -/
@@ -399,16 +528,16 @@ def pvC : NodeRef := { t := cwLeaf, alias := 0, id := 1992, start := ⟨2, ⟨0,
 of `b` is `v` (id 1984 = slot 0 of `h`), the parent of `c` — whose raw parent `h` is hidden — is
 the root. -/
 example : (nodeParent C02.demoLang 3 pvRoot pvB).map (·.id) = some 1984 := by
-  rw [parent_spec_partial C02.demoLang 3 pvRoot pvB [1, 0, 0] (by simp) (by simp) pvRoot_sized rfl (by decide)
-    (by decide) (by decide)]
+  rw [parent_spec_partial C02.demoLang 3 pvRoot pvB [1, 0, 0] none (by simp) (by simp) pvRoot_summarized pvRoot_shape rfl
+    (by decide) (by decide) (by decide) (by decide)]
   decide
 example : (nodeParent C02.demoLang 2 pvRoot pvC).map (·.id) = some 1 := by
-  rw [parent_spec_partial C02.demoLang 2 pvRoot pvC [1, 1] (by simp) (by simp) pvRoot_sized rfl (by decide)
-    (by decide) (by decide)]
+  rw [parent_spec_partial C02.demoLang 2 pvRoot pvC [1, 1] none (by simp) (by simp) pvRoot_summarized pvRoot_shape rfl
+    (by decide) (by decide) (by decide) (by decide)]
   decide
 example : (childWithDescendant C02.demoLang 3 pvRoot pvB.id pvB.startByte pvB.endByte).map (·.id) = some 1984 := by
-  rw [child_with_descendant_spec_partial C02.demoLang [1, 0, 0] 3 pvRoot pvB (by simp) (by simp) pvRoot_sized rfl
-    (by decide) (by decide)]
+  rw [child_with_descendant_spec_partial C02.demoLang [1, 0, 0] 3 pvRoot pvB none (by simp) (by simp) pvRoot_summarized
+    pvRoot_shape rfl (by decide) (by decide) (by decide)]
   decide
 
 
@@ -672,17 +801,6 @@ theorem ns_descend (lang : Lang) (self : NodeRef) (later : Option (NodeRef × Bo
           rw [this, h1]
 
 
-theorem summarizedL_kids (lang : Lang) (t : Tree) (h : Summarized lang t) : SummarizedL lang t.kids := by
-  obtain ⟨d, k⟩ := t
-  unfold Summarized at h
-  exact h.2.2
-
-theorem shapeOKL_kids (ps : Option Nat) (t : Tree) (h : shapeOK ps t = true) : shapeOKL (some t.data.symbol) t.kids = true := by
-  obtain ⟨d, k⟩ := t
-  unfold shapeOK at h
-  simp only [Bool.and_eq_true] at h
-  exact h.2
-
 theorem enum_ne_nil_of_vcc (lang : Lang) (t : Tree) (ps : Option Nat) (hs : Summarized lang t) (hsh : shapeOK ps t = true)
     (hv : vcc t > 0) : enumChildren lang t ≠ [] := by
   have hcnt := (summarize_counts lang t ps hs hsh).1
@@ -718,11 +836,6 @@ theorem resolve_ne_none (lang : Lang) (self : NodeRef) (l : NodeRef × Bool) (hg
     have := enum_ne_nil_of_vcc lang ln.t ps hs hsh hv
     simp only [resolveLater, ne_eq, List.head?_eq_none_iff]
     exact this
-
-theorem go_length (lang : Lang) (n : NodeRef) (pid nk : Nat) : ∀ (kids : List Tree) (pos : Length) (si k : Nat),
-    (rawChildren.go lang n pid nk kids pos si k).length = kids.length
-  | [], _, _, _ => by simp [rawChildren.go]
-  | c :: rest, pos, si, k => by rw [go_getElem_zero]; simp [go_length lang n pid nk rest]
 
 /-- The part of the scan after the path's child `rc` (index `k`), when no later raw node is empty. -/
 theorem ns_later_part (lang : Lang) (self n : NodeRef) (k : Nat) (rc : RawChild) (ps : Option Nat)
@@ -812,16 +925,6 @@ theorem ns_later_part (lang : Lang) (self n : NodeRef) (k : Nat) (rc : RawChild)
     rw [hxr] at hp
     exact hp.2.2.1
 
-
-theorem rawChildren_length (lang : Lang) (n : NodeRef) : (rawChildren lang n).length = n.t.kids.length := by
-  simp only [rawChildren]; exact go_length lang n _ _ _ _ _ _
-
-theorem nodeAt_cons (lang : Lang) (n d : NodeRef) (k : Nat) (rest : List Nat) (h : nodeAt lang n (k :: rest) = some d) :
-    ∃ rc, (rawChildren lang n)[k]? = some rc ∧ nodeAt lang rc.node rest = some d := by
-  simp only [nodeAt, rawChildAt] at h
-  cases hk : (rawChildren lang n)[k]? with
-  | none => simp [hk] at h
-  | some rc => exact ⟨rc, rfl, by simpa [hk] using h⟩
 
 /-- Below a child that ends where `self` ends there is nothing after `self`. -/
 theorem laterOnPath_tight (lang : Lang) (self : NodeRef) : ∀ (q : List Nat) (c : NodeRef), Sized c.t →
@@ -1012,8 +1115,9 @@ theorem next_sibling_spec_partial (lang : Lang) (fuel : Nat) (root self P : Node
 
 
 /-- The same with the parent given by `parent_spec_partial`: everything in terms of paths from the root. -/
-theorem next_sibling_spec_from_root (lang : Lang) (fuel : Nat) (root self : NodeRef) (path q : List Nat) (ps : Option Nat)
-    (hp : path ≠ []) (hfp : path.length ≤ fuel) (hsr : Sized root.t) (hatr : nodeAt lang root path = some self)
+theorem next_sibling_spec_from_root (lang : Lang) (fuel : Nat) (root self : NodeRef) (path q : List Nat) (psr ps : Option Nat)
+    (hp : path ≠ []) (hfp : path.length ≤ fuel) (hsr : Summarized lang root.t) (hshr : shapeOK psr root.t = true)
+    (hatr : nodeAt lang root path = some self) (hrel : self.relevant lang true = true)
     (hself : self.startByte < self.endByte) (hroot : root.id ≠ self.id) (hokp : pathOK lang self.id root path = true)
     (hq : q ≠ []) (hf : (parentOnPath lang root root path).t.size ≤ fuel + 1)
     (hs : Summarized lang (parentOnPath lang root root path).t) (hsh : shapeOK ps (parentOnPath lang root root path).t = true)
@@ -1022,22 +1126,9 @@ theorem next_sibling_spec_from_root (lang : Lang) (fuel : Nat) (root self : Node
     (nextSiblingPort lang fuel root self true).map (fun r => (r.t, r.alias)) =
       (laterOnPath lang (parentOnPath lang root root path) q).head? :=
   next_sibling_spec_partial lang fuel root self _ q ps
-    (parent_spec_partial lang fuel root self path hp hfp hsr hatr hself hroot hokp) hq hf hs hsh hat hself hok
+    (parent_spec_partial lang fuel root self path psr hp hfp hsr hshr hatr hrel hself hroot hokp) hq hf hs hsh hat hself hok
 
 /-! ## Non-vacuity for the sibling theorem -/
-
-theorem leaf_summarized (lang : Lang) (d : NodeData) (h : LeafOK d) : Summarized lang (.mk d []) := by
-  unfold Summarized SummarizedL; exact ⟨fun _ => h, fun h => absurd rfl h, trivial⟩
-theorem node_summarized (lang : Lang) (d : NodeData) (c : Tree) (rest : List Tree) (h : NodeOK lang d (c :: rest))
-    (hk : SummarizedL lang (c :: rest)) : Summarized lang (.mk d (c :: rest)) := by
-  unfold Summarized; exact ⟨fun h => by simp at h, fun _ => h, hk⟩
-theorem cwLeaf_summarized : Summarized C02.demoLang cwLeaf := leaf_summarized _ _ (by unfold LeafOK; decide)
-theorem pvRoot_summarized : Summarized C02.demoLang pvRoot.t := by
-  have hl := cwLeaf_summarized
-  have hv : Summarized C02.demoLang pvV := node_summarized _ _ _ _ (by unfold NodeOK; decide) (by unfold SummarizedL SummarizedL; exact ⟨hl, trivial⟩)
-  have hh : Summarized C02.demoLang pvH := node_summarized _ _ _ _ (by unfold NodeOK; decide) (by unfold SummarizedL SummarizedL SummarizedL; exact ⟨hv, hl, trivial⟩)
-  exact node_summarized _ _ _ _ (by unfold NodeOK; decide) (by unfold SummarizedL SummarizedL SummarizedL SummarizedL; exact ⟨hl, hh, hl, trivial⟩)
-theorem pvRoot_shape : shapeOK none pvRoot.t = true := by decide
 
 /-- the visible rule `v` (first child of the hidden `h`) -/
 def pvVRef : NodeRef := { t := pvV, alias := 0, id := 1984, start := ⟨1, ⟨0, 1⟩⟩ }
@@ -1046,11 +1137,11 @@ def pvVRef : NodeRef := { t := pvV, alias := 0, id := 1984, start := ⟨1, ⟨0,
 of the hidden `h`) is the leaf `c` that follows it inside `h`; the next sibling of `c` — the LAST
 child of `h`, which therefore ends where `h` ends — is the leaf `d` that follows `h` in the root. -/
 example : (nextSiblingPort C02.demoLang 8 pvRoot pvVRef true).map (fun r => (r.t, r.alias)) = some (cwLeaf, 0) := by
-  rw [next_sibling_spec_from_root C02.demoLang 8 pvRoot pvVRef [1, 0] [1, 0] none (by simp) (by simp) pvRoot_sized rfl
+  rw [next_sibling_spec_from_root C02.demoLang 8 pvRoot pvVRef [1, 0] [1, 0] none none (by simp) (by simp) pvRoot_summarized pvRoot_shape rfl (by decide)
     (by decide) (by decide) (by decide) (by simp) (by decide) pvRoot_summarized pvRoot_shape rfl (by decide)]
   rfl
 example : (nextSiblingPort C02.demoLang 8 pvRoot pvC true).map (fun r => (r.t, r.alias)) = some (cwLeaf, 0) := by
-  rw [next_sibling_spec_from_root C02.demoLang 8 pvRoot pvC [1, 1] [1, 1] none (by simp) (by simp) pvRoot_sized rfl
+  rw [next_sibling_spec_from_root C02.demoLang 8 pvRoot pvC [1, 1] [1, 1] none none (by simp) (by simp) pvRoot_summarized pvRoot_shape rfl (by decide)
     (by decide) (by decide) (by decide) (by simp) (by decide) pvRoot_summarized pvRoot_shape rfl (by decide)]
   rfl
 example : laterOnPath C02.demoLang pvRoot [1, 0] = [(cwLeaf, 0), (cwLeaf, 0)] := rfl
@@ -1568,8 +1659,9 @@ theorem prev_sibling_spec_partial (lang : Lang) (fuel : Nat) (root self P : Node
   have := ps_levels lang fuel self hself q (fuel + 1) P none ps hq (by simp only [laterNeed]; omega) hs hsh hat hok trivial
   simpa [resolveEarlier] using this
 
-theorem prev_sibling_spec_from_root (lang : Lang) (fuel : Nat) (root self : NodeRef) (path q : List Nat) (ps : Option Nat)
-    (hp : path ≠ []) (hfp : path.length ≤ fuel) (hsr : Sized root.t) (hatr : nodeAt lang root path = some self)
+theorem prev_sibling_spec_from_root (lang : Lang) (fuel : Nat) (root self : NodeRef) (path q : List Nat) (psr ps : Option Nat)
+    (hp : path ≠ []) (hfp : path.length ≤ fuel) (hsr : Summarized lang root.t) (hshr : shapeOK psr root.t = true)
+    (hatr : nodeAt lang root path = some self) (hrel : self.relevant lang true = true)
     (hself : self.startByte < self.endByte) (hroot : root.id ≠ self.id) (hokp : pathOK lang self.id root path = true)
     (hq : q ≠ []) (hf : (parentOnPath lang root root path).t.size ≤ fuel + 1)
     (hs : Summarized lang (parentOnPath lang root root path).t) (hsh : shapeOK ps (parentOnPath lang root root path).t = true)
@@ -1578,16 +1670,16 @@ theorem prev_sibling_spec_from_root (lang : Lang) (fuel : Nat) (root self : Node
     (prevSiblingPort lang fuel root self true).map (fun r => (r.t, r.alias)) =
       (earlierOnPath lang (parentOnPath lang root root path) q).getLast? :=
   prev_sibling_spec_partial lang fuel root self _ q ps
-    (parent_spec_partial lang fuel root self path hp hfp hsr hatr hself hroot hokp) hq hf hs hsh hat hself hok
+    (parent_spec_partial lang fuel root self path psr hp hfp hsr hshr hatr hrel hself hroot hokp) hq hf hs hsh hat hself hok
 
 /-- On the demo tree: the previous sibling of `c` (second child of the hidden `h`) is `v`; the
 previous sibling of `v` (FIRST child of `h`) is the leaf `a` that precedes `h` in the root. -/
 example : (prevSiblingPort C02.demoLang 8 pvRoot pvC true).map (fun r => (r.t, r.alias)) = some (pvV, 0) := by
-  rw [prev_sibling_spec_from_root C02.demoLang 8 pvRoot pvC [1, 1] [1, 1] none (by simp) (by simp) pvRoot_sized rfl
+  rw [prev_sibling_spec_from_root C02.demoLang 8 pvRoot pvC [1, 1] [1, 1] none none (by simp) (by simp) pvRoot_summarized pvRoot_shape rfl (by decide)
     (by decide) (by decide) (by decide) (by simp) (by decide) pvRoot_summarized pvRoot_shape rfl (by decide)]
   rfl
 example : (prevSiblingPort C02.demoLang 8 pvRoot pvVRef true).map (fun r => (r.t, r.alias)) = some (cwLeaf, 0) := by
-  rw [prev_sibling_spec_from_root C02.demoLang 8 pvRoot pvVRef [1, 0] [1, 0] none (by simp) (by simp) pvRoot_sized rfl
+  rw [prev_sibling_spec_from_root C02.demoLang 8 pvRoot pvVRef [1, 0] [1, 0] none none (by simp) (by simp) pvRoot_summarized pvRoot_shape rfl (by decide)
     (by decide) (by decide) (by decide) (by simp) (by decide) pvRoot_summarized pvRoot_shape rfl (by decide)]
   rfl
 
@@ -1806,5 +1898,416 @@ deepest relevant node spanning the range is `b` (slot id 2992). -/
 example : (descendantForByteRangePort C02.demoLang 8 pvRoot 1 2 true).map (·.id) = some 2992 := by
   rw [descendant_for_byte_range_spec_partial C02.demoLang 8 pvRoot 1 2 (by decide)]
   decide
+
+/-! ### The node.c searches in the semantics of the flattened tree -/
+
+theorem enumChildren_eq (lang : Lang) (t : Tree) : enumChildren lang t = enumKids lang t.data.productionId t.kids 0 := by
+  obtain ⟨d, k⟩ := t; simp [enumChildren, data_mk, kids_mk]
+
+/-- **path_siblings_split.**  If `self` is relevant and reached from `n` through hidden nodes only,
+the visible children of `n` (the children `flatten` gives it, `flattenKids_length`/`child_spec`)
+are `earlierOnPath ++ self :: laterOnPath`: `self` IS a child of `n` in the flattened tree, preceded
+and followed by exactly the lists the sibling theorems speak about. -/
+theorem path_siblings_split (lang : Lang) (self : NodeRef) (hrel : self.relevant lang true = true) :
+    ∀ (q : List Nat) (n : NodeRef), q ≠ [] → nodeAt lang n q = some self → hiddenPath lang n q = true →
+    enumChildren lang n.t = earlierOnPath lang n q ++ (self.t, self.alias) :: laterOnPath lang n q
+  | [], _, h, _, _ => absurd rfl h
+  | k :: rest, n, _, hat, hh => by
+    obtain ⟨rc, hk, hat'⟩ := nodeAt_cons lang n self k rest hat
+    have hk2 := hk
+    simp only [rawChildren] at hk2
+    have he := go_elem lang _ _ _ _ _ _ _ k rc hk2
+    have hsi := go_si lang _ _ _ _ _ _ _ k rc hk2
+    have hsplit : n.t.kids = n.t.kids.take k ++ rc.node.t :: n.t.kids.drop (k + 1) := by
+      rw [← drop_eq_cons _ k _ he.2.2, List.take_append_drop]
+    simp only [hiddenPath, rawChildAt, hk, Option.map_some] at hh
+    simp only [earlierOnPath, laterOnPath, hk]
+    rw [enumChildren_eq]
+    conv => lhs; rw [hsplit]
+    rw [enumKids_append, ← hsi.1]
+    conv => lhs; rhs; unfold enumKids
+    have halias : (if rc.node.t.data.extra = true then 0 else lang.aliasAt n.t.data.productionId rc.si) = rc.node.alias := hsi.2.symm
+    simp only [halias]
+    cases rest with
+    | nil =>
+      simp only [nodeAt, Option.some.injEq] at hat'
+      subst hat'
+      simp only [NodeRef.relevant, isRelevant, if_true] at hrel
+      simp [hrel, earlierOnPath, laterOnPath]
+    | cons k' rest' =>
+      simp only [List.isEmpty_cons, Bool.false_or, Bool.and_eq_true, Bool.not_eq_true'] at hh
+      have hv : (rc.node.t.data.visible || rc.node.alias != 0) = false := by
+        have := hh.1; simpa [NodeRef.relevant, isRelevant] using this
+      simp only [hv, Bool.false_eq_true, if_false]
+      rw [path_siblings_split lang self hrel (k' :: rest') rc.node (by simp) hat' hh.2]
+      simp [List.append_assoc]
+
+
+theorem nodeAt_append (lang : Lang) : ∀ (a b : List Nat) (n m : NodeRef), nodeAt lang n a = some m →
+    nodeAt lang n (a ++ b) = nodeAt lang m b
+  | [], _, _, _, h => by simp [nodeAt] at h; subst h; rfl
+  | k :: a, b, n, m, h => by
+    simp only [nodeAt, List.cons_append] at h ⊢
+    cases hk : rawChildAt lang n k with
+    | none => simp [hk] at h
+    | some c => simp only [hk] at h ⊢; exact nodeAt_append lang a b c m h
+
+/-- `relSplit` stops at the first relevant node: everything before it is hidden. -/
+theorem relSplit_hidden (lang : Lang) : ∀ (p : List Nat) (n c : NodeRef) (rest : List Nat),
+    relSplit lang n p = some (c, rest) →
+    ∃ pre, p = pre ++ rest ∧ pre ≠ [] ∧ nodeAt lang n pre = some c ∧ hiddenPath lang n pre = true ∧
+      (rest ≠ [] → c.relevant lang true = true)
+  | [], _, _, _, h => by simp [relSplit] at h
+  | k :: tl, n, c, rest, h => by
+    simp only [relSplit] at h
+    cases hk : rawChildAt lang n k with
+    | none => simp [hk] at h
+    | some c0 =>
+      simp only [hk] at h
+      by_cases hc : (tl.isEmpty || c0.relevant lang true) = true
+      · simp only [hc, if_true, Option.some.injEq, Prod.mk.injEq] at h
+        obtain ⟨h1, h2⟩ := h
+        subst h1; subst h2
+        refine ⟨[k], by simp, by simp, by simp [nodeAt, hk], by simp [hiddenPath, hk], ?_⟩
+        intro hne
+        have : tl.isEmpty = false := by cases tl <;> simp_all
+        simpa [this] using hc
+      · simp only [hc, if_false, Bool.false_eq_true] at h
+        have hte : tl.isEmpty = false := by cases tl <;> simp_all
+        have hnr : c0.relevant lang true = false := by
+          cases hr : c0.relevant lang true <;> simp_all
+        obtain ⟨pre, hp, hpne, hat, hhid, hrl⟩ := relSplit_hidden lang tl c0 c rest h
+        refine ⟨k :: pre, by simp [hp], by simp, by simp [nodeAt, hk, hat], ?_, hrl⟩
+        have hpe : pre.isEmpty = false := by cases pre <;> simp_all
+        simp [hiddenPath, hk, hpe, hnr, hhid]
+
+theorem relSplit_some (lang : Lang) (d : NodeRef) : ∀ (p : List Nat) (n : NodeRef), p ≠ [] → nodeAt lang n p = some d →
+    ∃ c rest, relSplit lang n p = some (c, rest)
+  | [], _, h, _ => absurd rfl h
+  | k :: tl, n, _, hat => by
+    simp only [nodeAt] at hat
+    simp only [relSplit]
+    cases hk : rawChildAt lang n k with
+    | none => simp [hk] at hat
+    | some c0 =>
+      simp only [hk] at hat ⊢
+      by_cases hc : (tl.isEmpty || c0.relevant lang true) = true
+      · exact ⟨c0, tl, by simp [hc]⟩
+      · simp only [hc, if_false, Bool.false_eq_true]
+        have hte : tl ≠ [] := by intro h0; subst h0; simp at hc
+        exact relSplit_some lang d tl c0 hte hat
+
+/-- **parent_path_spec.**  `parentOnPath` (what `parent_spec_partial` shows `ts_node_parent` returns)
+is a node `P` on the path, relevant or the start node itself, from which `d` is reached through
+hidden nodes only — so by `path_siblings_split` `d` is one of the children of `P` in the flattened
+tree: `P` is the parent of `d` there. -/
+theorem parent_path_spec (lang : Lang) (d : NodeRef) : ∀ (m : Nat) (p : List Nat) (n : NodeRef), p.length ≤ m → p ≠ [] →
+    nodeAt lang n p = some d →
+    ∃ pre q, p = pre ++ q ∧ q ≠ [] ∧ nodeAt lang n pre = some (parentOnPath lang n n p) ∧
+      nodeAt lang (parentOnPath lang n n p) q = some d ∧ hiddenPath lang (parentOnPath lang n n p) q = true ∧
+      (pre = [] ∨ (parentOnPath lang n n p).relevant lang true = true)
+  | 0, p, _, hm, hp, _ => by cases p <;> simp_all
+  | m + 1, p, n, hm, hp, hat => by
+    obtain ⟨c, rest, hsp⟩ := relSplit_some lang d p n hp hat
+    obtain ⟨pre, hpp, hpne, hatc, hhid, hrl⟩ := relSplit_hidden lang p n c rest hsp
+    rw [parentOnPath_split, hsp]
+    simp only
+    have hatd : nodeAt lang c rest = some d := by
+      rw [hpp, nodeAt_append lang pre rest n c hatc] at hat; exact hat
+    cases rest with
+    | nil =>
+      simp only [List.isEmpty_nil, if_true]
+      simp only [nodeAt, Option.some.injEq] at hatd
+      subst hatd
+      refine ⟨[], p, by simp, hp, by simp [nodeAt], hat, ?_, Or.inl rfl⟩
+      rw [hpp]; simpa using hhid
+    | cons k' rest' =>
+      simp only [List.isEmpty_cons, Bool.false_eq_true, if_false]
+      have hlen : (k' :: rest').length ≤ m := by
+        have : p.length = pre.length + (k' :: rest').length := by rw [hpp]; simp
+        have : pre.length > 0 := List.length_pos_iff.mpr hpne
+        omega
+      obtain ⟨pre2, q, hp2, hq, hat2, hatq, hhq, hor⟩ := parent_path_spec lang d m (k' :: rest') c hlen (by simp) hatd
+      refine ⟨pre ++ pre2, q, by rw [hpp, hp2]; simp, hq, ?_, hatq, hhq, Or.inr ?_⟩
+      · rw [nodeAt_append lang pre pre2 n c hatc]; exact hat2
+      · rcases hor with h0 | h1
+        · subst h0
+          simp only [nodeAt, Option.some.injEq] at hat2
+          rw [← hat2]; exact hrl (by simp)
+        · exact h1
+
+
+theorem nodeAt_summarized (lang : Lang) : ∀ (pre : List Nat) (n P : NodeRef) (ps : Option Nat), nodeAt lang n pre = some P →
+    Summarized lang n.t → shapeOK ps n.t = true →
+    Summarized lang P.t ∧ (∃ ps', shapeOK ps' P.t = true) ∧ P.t.size ≤ n.t.size
+  | [], n, P, ps, h, hs, hsh => by
+    simp only [nodeAt, Option.some.injEq] at h; subst h; exact ⟨hs, ⟨ps, hsh⟩, Nat.le_refl _⟩
+  | k :: pre, n, P, ps, h, hs, hsh => by
+    obtain ⟨rc, hk, hat'⟩ := nodeAt_cons lang n P k pre h
+    have hk2 := hk
+    simp only [rawChildren] at hk2
+    have hmem : rc.node.t ∈ n.t.kids := List.mem_of_getElem? (go_elem lang _ _ _ _ _ _ _ k rc hk2).2.2
+    have ih := nodeAt_summarized lang pre rc.node P _ hat'
+      (summarized_of_mem lang _ _ (summarizedL_kids lang n.t hs) hmem) (shapeOK_of_mem _ _ _ (shapeOKL_kids ps n.t hsh) hmem)
+    have := sizeList_mem _ _ hmem
+    have := tree_size_kids n.t
+    exact ⟨ih.1, ih.2.1, by omega⟩
+
+/-- Neighbours in a split list: the element after `x` is the head of `b`, the one before it the
+last of `a`. -/
+theorem split_neighbours {α : Type} (a b : List α) (x : α) :
+    (a ++ x :: b)[a.length]? = some x ∧ (a ++ x :: b)[a.length + 1]? = b.head? ∧
+    (a.getLast? = if a.length = 0 then none else (a ++ x :: b)[a.length - 1]?) := by
+  refine ⟨by simp, ?_, ?_⟩
+  · rw [List.getElem?_append_right (by omega)]
+    cases b <;> simp
+  · cases hl : a.length with
+    | zero => have : a = [] := List.eq_nil_of_length_eq_zero hl; subst this; simp
+    | succ m =>
+      simp only [Nat.add_one_ne_zero, if_false, Nat.add_sub_cancel]
+      rw [List.getElem?_append_left (by omega), List.getLast?_eq_getElem?, hl]
+      simp
+
+/-- **node_nav_flat_spec.**  The position-based searches of node.c in the semantics of the flattened
+tree.  For a relevant NON-EMPTY node `d` at a raw path `p` below the root of a summarized
+parser-shaped tree (`pathOK`: its slot id is unique along the search), let `P` be `parentOnPath`.
+Then there is a path `q` from `P` to `d` through hidden nodes only such that
+* `ts_node_parent(d)` returns `P`;
+* the visible children of `P` — the children `flatten` gives `P` — are
+  `earlierOnPath P q ++ d :: laterOnPath P q`, i.e. `d` is child number `(earlierOnPath P q).length`
+  of `P` in the flattened tree (so `P` is its parent there);
+* if no zero-width raw node sits where `d` ends (`nsPathOK`), `ts_node_next_sibling(d)` is the NEXT
+  element of that children list (`split_neighbours`), null if `d` is the last;
+* if `d`'s slot id does not occur in the earlier siblings (`psPathOK`), `ts_node_prev_sibling(d)` is
+  the PREVIOUS element, null if `d` is the first. -/
+theorem node_nav_flat_spec (lang : Lang) (fuel : Nat) (root d : NodeRef) (p : List Nat) (ps : Option Nat)
+    (hp : p ≠ []) (hfp : p.length ≤ fuel) (hsz : root.t.size ≤ fuel + 1)
+    (hs : Summarized lang root.t) (hsh : shapeOK ps root.t = true) (hat : nodeAt lang root p = some d)
+    (hrel : d.relevant lang true = true) (hne : d.startByte < d.endByte) (hroot : root.id ≠ d.id)
+    (hok : pathOK lang d.id root p = true) :
+    ∃ q, q ≠ [] ∧ nodeAt lang (parentOnPath lang root root p) q = some d ∧
+      hiddenPath lang (parentOnPath lang root root p) q = true ∧
+      nodeParent lang fuel root d = some (parentOnPath lang root root p) ∧
+      enumChildren lang (parentOnPath lang root root p).t =
+        earlierOnPath lang (parentOnPath lang root root p) q ++ (d.t, d.alias) :: laterOnPath lang (parentOnPath lang root root p) q ∧
+      (nsPathOK lang d (parentOnPath lang root root p) q = true →
+        (nextSiblingPort lang fuel root d true).map (fun r => (r.t, r.alias)) =
+          (laterOnPath lang (parentOnPath lang root root p) q).head?) ∧
+      (psPathOK lang d (parentOnPath lang root root p) q = true →
+        (prevSiblingPort lang fuel root d true).map (fun r => (r.t, r.alias)) =
+          (earlierOnPath lang (parentOnPath lang root root p) q).getLast?) := by
+  obtain ⟨pre, q, hpq, hq, hatP, hatq, hhid, _⟩ := parent_path_spec lang d p.length p root (Nat.le_refl _) hp hat
+  have hpar := parent_spec_partial lang fuel root d p ps hp hfp hs hsh hat hrel hne hroot hok
+  obtain ⟨hsP, ⟨psP, hshP⟩, hszP⟩ := nodeAt_summarized lang pre root _ ps hatP hs hsh
+  refine ⟨q, hq, hatq, hhid, hpar, path_siblings_split lang d hrel q _ hq hatq hhid, ?_, ?_⟩
+  · intro hns
+    exact next_sibling_spec_partial lang fuel root d _ q psP hpar hq (by omega) hsP hshP hatq hne hns
+  · intro hps
+    exact prev_sibling_spec_partial lang fuel root d _ q psP hpar hq (by omega) hsP hshP hatq hne hps
+
+
+/-- The children `flatten` gives a visible node built from the raw subtree `t` (second component of
+`flattenAt`: `flattenKids t.kids pos pid 0 0 addr n []`) are, as (raw subtree, alias) pairs, exactly
+`enumChildren t` — the list `node_nav_flat_spec` splits. -/
+theorem flat_children_are_enum (lang : Lang) (t : Tree) (pos : Length) (outer : List (List Nat)) :
+    (flattenKids lang t.kids pos t.data.productionId 0 0 t.data.addr t.kids.length outer).map
+        (fun v => (v.info.raw, v.info.alias)) = enumChildren lang t := by
+  have h1 := flattenKids_fields lang t.kids pos t.data.productionId 0 0 t.data.addr t.kids.length outer
+  have h2 := enumKidsF_proj lang t.data.productionId t.kids 0 outer
+  rw [enumChildren_eq, ← h2, ← h1, List.map_map]
+  rfl
+
+
+/-- On the demo tree all hypotheses of `node_nav_flat_spec` hold for `c` (second child of the hidden
+`h`): its parent is the root, and the root's flattened children are `[a, v, c, d]` with `c` third. -/
+example : ∃ q, q ≠ [] ∧ nodeAt C02.demoLang (parentOnPath C02.demoLang pvRoot pvRoot [1, 1]) q = some pvC ∧
+    enumChildren C02.demoLang (parentOnPath C02.demoLang pvRoot pvRoot [1, 1]).t =
+      earlierOnPath C02.demoLang (parentOnPath C02.demoLang pvRoot pvRoot [1, 1]) q ++ (pvC.t, pvC.alias) ::
+        laterOnPath C02.demoLang (parentOnPath C02.demoLang pvRoot pvRoot [1, 1]) q := by
+  obtain ⟨q, h1, h2, _, _, h5, _, _⟩ := node_nav_flat_spec C02.demoLang 8 pvRoot pvC [1, 1] none (by simp) (by simp) (by decide)
+    pvRoot_summarized pvRoot_shape rfl (by decide) (by decide) (by decide) (by decide)
+  exact ⟨q, h1, h2, h5⟩
+example : earlierOnPath C02.demoLang pvRoot [1, 1] = [(cwLeaf, 0), (pvV, 0)] ∧
+    laterOnPath C02.demoLang pvRoot [1, 1] = [(cwLeaf, 0)] ∧ hiddenPath C02.demoLang pvRoot [1, 1] = true := ⟨rfl, rfl, rfl⟩
+
+/-! ### `first_child_for_byte` in the semantics of the flattened tree -/
+
+mutual
+  /-- The visible children of a raw subtree placed at `start`, as the nodes `ts_node_child` hands
+  out (slot id, alias, position in node.c's system): a relevant child is listed itself, a hidden one
+  is replaced by its own visible children. -/
+  def enumRefs (lang : Lang) : Tree → Length → List NodeRef
+    | .mk d kids, start => enumRefsKids lang d.productionId d.addr kids.length kids start 0 0
+  def enumRefsKids (lang : Lang) (pid addr nk : Nat) : List Tree → Length → Nat → Nat → List NodeRef
+    | [], _, _, _ => []
+    | c :: rest, pos, si, k =>
+      let cstart := if k > 0 then length_add pos c.data.padding else pos
+      let node : NodeRef := { t := c, alias := (if c.data.extra then 0 else lang.aliasAt pid si), id := slotId addr nk k, start := cstart }
+      (if node.relevant lang true then [node] else enumRefs lang c cstart) ++
+        enumRefsKids lang pid addr nk rest (length_add cstart c.data.size) (if c.data.extra then si else si + 1) (k + 1)
+end
+
+mutual
+  /-- `enumRefs` is `enumChildren` with identities and positions attached. -/
+  theorem enumRefs_proj (lang : Lang) : ∀ (t : Tree) (start : Length),
+      (enumRefs lang t start).map (fun r => (r.t, r.alias)) = enumChildren lang t
+    | .mk d kids, start => by
+      unfold enumRefs enumChildren
+      exact enumRefsKids_proj lang d.productionId d.addr kids.length kids start 0 0
+  theorem enumRefsKids_proj (lang : Lang) (pid addr nk : Nat) : ∀ (kids : List Tree) (pos : Length) (si k : Nat),
+      (enumRefsKids lang pid addr nk kids pos si k).map (fun r => (r.t, r.alias)) = enumKids lang pid kids si
+    | [], _, _, _ => by simp [enumRefsKids, enumKids]
+    | c :: rest, pos, si, k => by
+      unfold enumRefsKids enumKids
+      simp only [List.map_append]
+      rw [enumRefsKids_proj lang pid addr nk rest]
+      simp only [NodeRef.relevant, isRelevant, if_true]
+      by_cases h : (c.data.visible || (if c.data.extra then 0 else lang.aliasAt pid si) != 0) = true
+      · simp [h]
+      · simp only [h, Bool.false_eq_true, if_false]
+        rw [enumRefs_proj lang c]
+end
+
+mutual
+  /-- Every listed node ends inside the layout of the children it comes from. -/
+  theorem enumRefs_within (lang : Lang) : ∀ (t : Tree) (start : Length), Sized t → ∀ r ∈ enumRefs lang t start,
+      r.endByte ≤ start.bytes + t.data.size.bytes
+    | .mk d kids, start, hs, r, hr => by
+      unfold enumRefs at hr
+      unfold Sized at hs
+      have := enumRefsKids_within lang d.productionId d.addr kids.length kids start 0 0 hs.2 r hr
+      cases kids with
+      | nil => simp [enumRefsKids] at hr
+      | cons c rest =>
+        have hsz := (hs.1 (by simp)).2
+        simp only [data_mk]
+        rw [hsz, kidsSize, restSize_bytes]
+        unfold layEnd at this
+        simp only [Nat.lt_irrefl, if_false, gt_iff_lt] at this
+        rw [layEnd_pos _ _ _ (by omega)] at this
+        omega
+  theorem enumRefsKids_within (lang : Lang) (pid addr nk : Nat) : ∀ (kids : List Tree) (pos : Length) (si k : Nat),
+      SizedL kids → ∀ r ∈ enumRefsKids lang pid addr nk kids pos si k, r.endByte ≤ layEnd kids pos.bytes k
+    | [], _, _, _, _, r, hr => by simp [enumRefsKids] at hr
+    | c :: rest, pos, si, k, hs, r, hr => by
+      unfold enumRefsKids at hr
+      unfold SizedL at hs
+      unfold layEnd
+      simp only [List.mem_append] at hr
+      have hmono := layEnd_ge rest ((if k > 0 then pos.bytes + c.data.padding.bytes else pos.bytes) + c.data.size.bytes) (k + 1)
+      have hcs : (if k > 0 then length_add pos c.data.padding else pos).bytes = (if k > 0 then pos.bytes + c.data.padding.bytes else pos.bytes) := by
+        split <;> simp [length_add_bytes]
+      generalize (if k > 0 then length_add pos c.data.padding else pos) = cstart at hr hcs
+      generalize (if c.data.extra = true then 0 else lang.aliasAt pid si) = al at hr
+      rcases hr with hr | hr
+      · by_cases hrel : ({ t := c, alias := al, id := slotId addr nk k, start := cstart } : NodeRef).relevant lang true = true
+        · simp only [hrel, if_true, List.mem_singleton] at hr
+          subst hr
+          simp only [NodeRef.endByte]
+          omega
+        · simp only [hrel, if_false, Bool.false_eq_true] at hr
+          have := enumRefs_within lang c cstart hs.1 r hr
+          omega
+      · have := enumRefsKids_within lang pid addr nk rest _ _ _ hs.2 r hr
+        simp only [length_add_bytes, hcs] at this
+        exact this
+end
+
+
+theorem find_append_or {α : Type} (p : α → Bool) (a b : List α) : (a ++ b).find? p = (a.find? p).or (b.find? p) := by
+  induction a with
+  | nil => simp
+  | cons x xs ih => simp only [List.cons_append, List.find?_cons]; cases p x <;> simp [ih]
+
+mutual
+  /-- **fcb_is_first_ending_after.**  On a summarized parser-shaped tree the plain search `fcbNode`
+  (= `ts_node_first_child_for_byte` when there is no dead end, `first_child_for_byte_spec_partial`)
+  is the FIRST of the visible children — `enumRefs`, i.e. `enumChildren` with positions — whose end
+  byte is after `goal`: skipping a hidden child that ends at or before `goal` loses nothing because
+  its children end inside it, and one whose cached `visible_child_count` is 0 has no visible child. -/
+  theorem fcbNode_eq_find (lang : Lang) (goal : Nat) : ∀ (t : Tree) (start : Length) (ps : Option Nat),
+      Summarized lang t → shapeOK ps t = true →
+      fcbNode lang goal t start = (enumRefs lang t start).find? (fun r => decide (r.endByte > goal))
+    | .mk d kids, start, ps, hs, hsh => by
+      unfold fcbNode enumRefs
+      unfold Summarized at hs
+      unfold shapeOK at hsh
+      simp only [Bool.and_eq_true] at hsh
+      exact fcbKids_eq_find lang goal d.productionId d.addr kids.length kids start 0 0 (some d.symbol) hs.2.2 hsh.2
+  theorem fcbKids_eq_find (lang : Lang) (goal pid addr nk : Nat) : ∀ (kids : List Tree) (pos : Length) (si k : Nat)
+      (ps : Option Nat), SummarizedL lang kids → shapeOKL ps kids = true →
+      fcbKids lang goal pid addr nk kids pos si k =
+        (enumRefsKids lang pid addr nk kids pos si k).find? (fun r => decide (r.endByte > goal))
+    | [], _, _, _, _, _, _ => by simp [fcbKids, enumRefsKids]
+    | c :: rest, pos, si, k, ps, hs, hsh => by
+      unfold SummarizedL at hs
+      unfold shapeOKL at hsh
+      simp only [Bool.and_eq_true] at hsh
+      unfold fcbKids enumRefsKids
+      simp only
+      rw [find_append_or]
+      have ih := fcbKids_eq_find lang goal pid addr nk rest
+        (length_add (if k > 0 then length_add pos c.data.padding else pos) c.data.size) (if c.data.extra then si else si + 1) (k + 1) ps hs.2 hsh.2
+      rw [← ih]
+      generalize (if k > 0 then length_add pos c.data.padding else pos) = cstart
+      generalize (if c.data.extra = true then 0 else lang.aliasAt pid si) = al
+      generalize fcbKids lang goal pid addr nk rest (length_add cstart c.data.size) (if c.data.extra = true then si else si + 1) (k + 1) = nxt
+      have hsz := sized_of_summarized lang c hs.1
+      by_cases hrel : ({ t := c, alias := al, id := slotId addr nk k, start := cstart } : NodeRef).relevant lang true = true
+      · simp only [hrel, if_true, List.find?_cons, List.find?_nil]
+        by_cases hend : ({ t := c, alias := al, id := slotId addr nk k, start := cstart } : NodeRef).endByte > goal
+        · simp [hend]
+        · simp [hend]
+      · simp only [hrel, if_false, Bool.false_eq_true]
+        by_cases hend : ({ t := c, alias := al, id := slotId addr nk k, start := cstart } : NodeRef).endByte > goal
+        · simp only [hend, if_true]
+          by_cases hcc : ({ t := c, alias := al, id := slotId addr nk k, start := cstart } : NodeRef).childCount > 0
+          · simp only [hcc, if_true]
+            rw [fcbNode_eq_find lang goal c cstart ps hs.1 hsh.1]
+            cases (enumRefs lang c cstart).find? (fun r => decide (r.endByte > goal)) <;> simp
+          · simp only [hcc, if_false]
+            -- cached visible_child_count = 0: no visible child
+            have hcnt := (summarize_counts lang c ps hs.1 hsh.1).1
+            have hnil : enumRefs lang c cstart = [] := by
+              have hp := enumRefs_proj lang c cstart
+              have : enumChildren lang c = [] := by
+                simp only [NodeRef.childCount] at hcc
+                by_cases hk : c.kids.length > 0
+                · simp only [hk, if_true] at hcc
+                  have : c.data.visibleChildCount = 0 := by omega
+                  rw [this] at hcnt
+                  exact List.eq_nil_of_length_eq_zero hcnt.symm
+                · obtain ⟨cd, ck⟩ := c
+                  simp only [kids_mk] at hk
+                  have : ck = [] := List.eq_nil_of_length_eq_zero (by omega)
+                  subst this
+                  simp [enumChildren, enumKids]
+              rw [this] at hp
+              exact List.map_eq_nil_iff.mp hp
+            rw [hnil]
+            simp
+        · simp only [hend, if_false]
+          have hnone : (enumRefs lang c cstart).find? (fun r => decide (r.endByte > goal)) = none := by
+            apply find_none_of_all
+            intro r hr
+            have := enumRefs_within lang c cstart hsz r hr
+            simp only [NodeRef.endByte] at hend this ⊢
+            simp; omega
+          rw [hnone]
+          simp
+end
+
+
+/-- **first_child_for_byte_flat_spec.**  Summarized parser-shaped subtree, no dead end: the port of
+`ts_node_first_child_for_byte(self, goal)` is the first visible child of `self` (in the order of
+`ts_node_child`, `enumRefs_proj`) whose end byte lies after `goal`. -/
+theorem first_child_for_byte_flat_spec (lang : Lang) (fuel : Nat) (self : NodeRef) (goal : Nat) (ps : Option Nat)
+    (hf : self.t.size ≤ 2 * fuel + 4) (hs : Summarized lang self.t) (hsh : shapeOK ps self.t = true)
+    (hnde : ndeNode lang goal self.t self.start = true) :
+    firstChildForBytePort lang fuel self goal true =
+      (enumRefs lang self.t self.start).find? (fun r => decide (r.endByte > goal)) := by
+  rw [first_child_for_byte_spec_partial lang fuel self goal hf hnde, fcbNode_eq_find lang goal self.t self.start ps hs hsh]
+
+example : (enumRefs C02.demoLang pvRoot.t pvRoot.start).map (·.id) = [976, 1984, 1992, 992] := by decide
 
 end TsVerif.C06
